@@ -147,9 +147,15 @@ def ref_scores(name, y_true, y_pred):
     if name == "neg_root_mean_squared_error":
         return -float(np.sqrt(err).mean())
     if name == "r2":
-        den = ((y_true - y_true.mean(axis=0)) ** 2).mean(axis=0)
-        with np.errstate(divide="ignore", invalid="ignore"):
-            r2 = 1.0 - err / den
+        # coefficient of determination per target, averaged; the degenerate cases follow
+        # the documented convention of the metric (perfect fit -> 1, constant target with
+        # an imperfect fit -> 0) so that the value is always finite
+        den = ((y_true - y_true.mean(axis=0)) ** 2).sum(axis=0)
+        num = ((y_true - y_pred) ** 2).sum(axis=0)
+        r2 = np.ones_like(num)
+        ok = (den != 0) & (num != 0)
+        r2[ok] = 1.0 - num[ok] / den[ok]
+        r2[(num != 0) & (den == 0)] = 0.0
         return float(r2.mean())
     raise ValueError(name)
 
